@@ -68,13 +68,32 @@ def sweep(world, rep, ts):
                 else:
                     exp_all = [(a, b) for a, b in E if inb(a)]
                     if 'D06' in guards:
-                        it_order = order if nb is None else [n for n in nb if n in pos]
-                        ipos = {n: i for i, n in enumerate(it_order)}
-                        must = [(a, b) for a, b in exp_all if not (b in ipos and a in ipos and ipos[b] < ipos[a])]
+                        # the finding: an edge a->b is dropped iff b was visited (as a source) before a.
+                        # Asserted without assuming the visiting order: duplicate-free subset of the edge
+                        # set, and kept/dropped edges must be explainable by SOME visiting order of the
+                        # queried nodes (kept a->b: a before b; dropped a->b: b before a, b queried)
                         c = ms(got)
-                        if any(v > 1 for v in c.values()) or not set(got) <= set(exp_all) or not set(must) <= set(got):
-                            raise V('interactions', name, t, got, {'must': must, 'may': exp_all}, {'nbunch': repr(nb)})
-                        if len(must) < len(exp_all):
+                        kept = set(got)
+                        if any(v > 1 for v in c.values()) or not kept <= set(exp_all):
+                            raise V('interactions', name, t, got, {'may': exp_all}, {'nbunch': repr(nb)})
+                        import networkx as _nx
+                        cons = _nx.DiGraph()
+                        queried = set(nodes) if nb is None else set(nb)
+                        okd = True
+                        for a, b in exp_all:
+                            if a == b:
+                                okd = okd and (a, b) in kept
+                            elif (a, b) in kept:
+                                if b in queried:
+                                    cons.add_edge(a, b)
+                            else:
+                                if b not in queried:
+                                    okd = False
+                                cons.add_edge(b, a)
+                        if not okd or not _nx.is_directed_acyclic_graph(cons):
+                            raise V('interactions', name, t, got, {'edges': exp_all, 'note': 'kept/dropped edges '
+                                    'not explainable by any visiting order'}, {'nbunch': repr(nb)})
+                        if len(kept) < len(exp_all):
                             world.guard_hits['D06'] += 1
                     elif ms(got) != ms(exp_all):
                         raise V('interactions', name, t, got, exp_all, {'nbunch': repr(nb)})
